@@ -122,6 +122,12 @@ class StepWorld:
                         self.model.state[nm[: -len("_mean")]] = p.clone()   # (the population variable sits at its prior mode)
                         self.counters["fault.zero_component_in_start_value"] += 1
                         break
+            if cfg.get("unit_scale_param"):
+                # a scale parameter that is exactly 1.0 (hand-edited / rounded model files): legal, and a classic shortcut trap
+                nm = cfg["unit_scale_param"]
+                if nm in self.model.parameters:
+                    self.model.state[nm] = torch.ones_like(self.model.state[nm])
+                    self.counters["fault.scale_parameter_exactly_one"] += 1
             torch.manual_seed(cfg["gseed"] & 0x7FFFFFFF)
             self.state = self.algo._initialize_algo(self.model, self.dataset)
         dag = self.state.dag
